@@ -35,7 +35,11 @@ void vf_replay_assume_fail (const char *file, int line);
 #else
 #define VF_ASSUME(c) __CPROVER_assume (c)
 #define VF_ASSERT(c, label) __CPROVER_assert ((c), "PROP: " label)
+#ifdef VF_SKIP_FINDINGS   /* a harness reused under another property: findings are reported under the property that owns them */
+#define VF_FINDING(c, key) do { } while (0)
+#else
 #define VF_FINDING(c, key) __CPROVER_assert ((c), "FINDING:" key)
+#endif
 #define VF_SHOW(...) do { } while (0)
 #ifdef VF_NO_WITNESS
 #define VF_WITNESS(label) do { } while (0)
